@@ -2,15 +2,22 @@ package vk
 
 import (
 	"crypto/sha1"
+	"encoding/binary"
 	"encoding/hex"
 	"encoding/json"
 	"fmt"
 	"os"
 	"os/exec"
 	"path/filepath"
+	"slices"
 	"sort"
+	"strconv"
 	"strings"
 	"sync"
+	"sync/atomic"
+	"syscall"
+	"time"
+	"unsafe"
 )
 
 // The supervisor turns fatal runtime errors of the code under test (stack overflow,
@@ -38,13 +45,18 @@ func supervise(prop, level string) {
 		}
 	}
 	defer os.RemoveAll(dir)
-	code, finished := runChild(dir, os.Getenv("VERIF_REPLAY"), false)
+	first := runChildW(dir, os.Getenv("VERIF_REPLAY"), false, stallLimit())
+	code, finished := first.code, first.finished
 	if finished {
 		os.RemoveAll(dir)
 		os.Exit(code)
 	}
-	// the child died. Collect the in-flight sequences.
-	fmt.Fprintf(os.Stderr, "supervisor: %s child died (exit %d) before finishing; replaying in-flight sequences\n", prop, code)
+	// the child died or stalled. Collect the in-flight sequences.
+	what := "died"
+	if first.stalled {
+		what = fmt.Sprintf("made no progress for %v (hang or deadlock) and was killed", stallLimit())
+	}
+	fmt.Fprintf(os.Stderr, "supervisor: %s child %s (exit %d) before finishing; replaying in-flight sequences\n", prop, what, code)
 	if os.Getenv("VERIF_REPLAY") != "" {
 		// a replay that kills the process reproduces a crash violation
 		fmt.Printf("VIOLATION property=%s replay=%s\n", prop, os.Getenv("VERIF_REPLAY"))
@@ -62,8 +74,11 @@ func supervise(prop, level string) {
 		if !strings.HasPrefix(e.Name(), "slot-") {
 			continue
 		}
-		b, err := os.ReadFile(filepath.Join(dir, e.Name()))
-		if err != nil || len(b) == 0 {
+		if len(first.hungSlots) > 0 && !slices.Contains(first.hungSlots, e.Name()) {
+			continue
+		}
+		b := readSlot(filepath.Join(dir, e.Name()))
+		if len(b) == 0 {
 			continue
 		}
 		lines := strings.Split(strings.TrimRight(string(b), "\n"), "\n")
@@ -88,12 +103,15 @@ func supervise(prop, level string) {
 		_ = os.MkdirAll(filepath.Dir(p), 0o755)
 		_ = os.WriteFile(p, b, 0o644)
 		sub, _ := os.MkdirTemp(dir, "confirm-")
-		died, viol := 0, 0
+		died, viol, hung := 0, 0, 0
 		for i := 0; i < 2; i++ {
-			c, fin := runChild(sub, p, true)
-			if !fin {
+			cr := runChildW(sub, p, true, 15*time.Second, 20*time.Second)
+			if cr.stalled {
+				hung++
 				died++
-			} else if c == 1 {
+			} else if !cr.finished {
+				died++
+			} else if cr.code == 1 {
 				viol++
 			}
 		}
@@ -102,9 +120,13 @@ func supervise(prop, level string) {
 			r.Report(&Violation{Fingerprint: "violation-on-replay:" + lastOf(c.trace), Detail: "in-flight sequence of a crashed exploration violates the property when replayed (see bin/check --replay)", Trace: c.trace, Scenario: c.scenario})
 		} else if died == 2 {
 			confirmed++
-			fmt.Fprintf(os.Stderr, "supervisor: confirmed fatal crash, scenario %q, trace %v\n", c.scenario, c.trace)
-			r.Report(&Violation{Fingerprint: "fatal-crash:" + lastOf(c.trace), Detail: "process died (fatal runtime error, e.g. unbounded recursion) executing the last op of the trace; replay confirmed twice", Trace: c.trace, Scenario: c.scenario})
-			if confirmed >= 3 {
+			fmt.Fprintf(os.Stderr, "supervisor: confirmed (died twice on replay, hung=%d), scenario %q, trace %v\n", hung, c.scenario, c.trace)
+			if hung == 2 {
+				r.Report(&Violation{Fingerprint: "hang:" + lastOf(c.trace), Detail: "the real code never returns (deadlock or unbounded loop) while executing this sequence; replay confirmed twice", Trace: c.trace, Scenario: c.scenario})
+			} else {
+				r.Report(&Violation{Fingerprint: "fatal-crash:" + lastOf(c.trace), Detail: "process died (fatal runtime error, e.g. unbounded recursion) executing the last op of the trace; replay confirmed twice", Trace: c.trace, Scenario: c.scenario})
+			}
+			if confirmed >= 3 || hung == 2 {
 				break
 			}
 		} else {
@@ -134,9 +156,41 @@ func lastOf(t []string) string {
 	return t[len(t)-1]
 }
 
+// childResult describes how a child ended.
+type childResult struct {
+	code      int
+	finished  bool
+	stalled   bool
+	hungSlots []string
+}
+
+func stallLimit() time.Duration {
+	if v := os.Getenv("VERIF_STALL_S"); v != "" {
+		if n, err := strconv.Atoi(v); err == nil && n > 0 {
+			return time.Duration(n) * time.Second
+		}
+	}
+	return 60 * time.Second
+}
+
+func readBeat(dir string) uint64 {
+	b, err := os.ReadFile(filepath.Join(dir, "beat"))
+	if err != nil || len(b) < 8 {
+		return 0
+	}
+	return binary.LittleEndian.Uint64(b)
+}
+
 func runChild(dir, replay string, quiet bool) (code int, finished bool) {
+	r := runChildW(dir, replay, quiet, stallLimit())
+	return r.code, r.finished
+}
+
+func runChildW(dir, replay string, quiet bool, stall time.Duration, hard ...time.Duration) childResult {
+	started := time.Now()
 	marker := filepath.Join(dir, "finished")
 	_ = os.Remove(marker)
+	_ = os.Remove(filepath.Join(dir, "beat"))
 	cmd := exec.Command(os.Args[0], os.Args[1:]...)
 	cmd.Env = append(os.Environ(), envChild+"=1", envInflight+"="+dir)
 	if replay != "" {
@@ -149,19 +203,76 @@ func runChild(dir, replay string, quiet bool) (code int, finished bool) {
 	// keep the tail of stderr small: a Go fatal error dumps every goroutine
 	tail := &tailWriter{max: 6000}
 	cmd.Stderr = tail
-	err := cmd.Run()
+	if err := cmd.Start(); err != nil {
+		return childResult{code: 2}
+	}
+	done := make(chan error, 1)
+	go func() { done <- cmd.Wait() }()
+	var res childResult
+	last, lastChange := uint64(0), time.Now()
+	type slotState struct {
+		seq    uint64
+		change time.Time
+	}
+	slots := map[string]*slotState{}
+	tick := time.NewTicker(500 * time.Millisecond)
+	defer tick.Stop()
+	var err error
+loop:
+	for {
+		select {
+		case err = <-done:
+			break loop
+		case <-tick.C:
+			if b := readBeat(dir); b != last {
+				last, lastChange = b, time.Now()
+			}
+			// a busy worker slot whose record has not changed for the stall limit is hung, even
+			// while other workers still make progress
+			slotHung := false
+			if ents, err := os.ReadDir(dir); err == nil {
+				for _, e := range ents {
+					if !strings.HasPrefix(e.Name(), "slot-") {
+						continue
+					}
+					data, seq := readSlotSeq(filepath.Join(dir, e.Name()))
+					st := slots[e.Name()]
+					if st == nil || st.seq != seq {
+						slots[e.Name()] = &slotState{seq, time.Now()}
+						continue
+					}
+					if len(data) > 0 && time.Since(st.change) > stall {
+						slotHung = true
+						res.hungSlots = append(res.hungSlots, e.Name())
+					}
+				}
+			}
+			// the watchdog arms with the first heartbeat (start-up and build time do not count)
+			if slotHung || (last != 0 && time.Since(lastChange) > stall) || (len(hard) > 0 && time.Since(started) > hard[0]) {
+				res.stalled = true
+				_ = cmd.Process.Signal(syscall.SIGQUIT)
+				select {
+				case err = <-done:
+				case <-time.After(10 * time.Second):
+					_ = cmd.Process.Kill()
+					err = <-done
+				}
+				break loop
+			}
+		}
+	}
 	if !quiet {
 		os.Stderr.Write(tail.bytes())
 	}
-	code = 0
 	if err != nil {
-		code = 2
+		res.code = 2
 		if ee, ok := err.(*exec.ExitError); ok {
-			code = ee.ExitCode()
+			res.code = ee.ExitCode()
 		}
 	}
 	_, serr := os.Stat(marker)
-	return code, serr == nil
+	res.finished = serr == nil && !res.stalled
+	return res
 }
 
 type tailWriter struct {
@@ -203,28 +314,108 @@ func (t *tailWriter) bytes() []byte {
 	return append(out, t.buf...)
 }
 
-var inflightFiles sync.Map // slot -> *os.File
+var (
+	beatOnce sync.Once
+	beatPtr  *uint64
+)
 
-// Inflight records the sequence a worker slot is about to execute (no-op when unsupervised).
+// Beat tells the supervisor's watchdog that the harness is making progress.
+func Beat() {
+	dir := os.Getenv(envInflight)
+	if dir == "" {
+		return
+	}
+	beatOnce.Do(func() {
+		f, err := os.OpenFile(filepath.Join(dir, "beat"), os.O_CREATE|os.O_RDWR, 0o644)
+		if err != nil {
+			return
+		}
+		defer f.Close()
+		if err := f.Truncate(8); err != nil {
+			return
+		}
+		m, err := syscall.Mmap(int(f.Fd()), 0, 8, syscall.PROT_READ|syscall.PROT_WRITE, syscall.MAP_SHARED)
+		if err != nil {
+			return
+		}
+		beatPtr = (*uint64)(unsafe.Pointer(&m[0]))
+	})
+	if beatPtr != nil {
+		atomic.AddUint64(beatPtr, 1)
+	}
+}
+
+const slotSize = 1 << 15
+
+var inflightMaps sync.Map // slot -> []byte (MAP_SHARED mapping of the slot file)
+
+// Inflight records the sequence a worker slot is about to execute (no-op when
+// unsupervised). The record lives in a MAP_SHARED file mapping: writing it costs no
+// system call and the page survives the death of the process.
 func Inflight(slot int, scenario string, path []string) {
 	dir := os.Getenv(envInflight)
 	if dir == "" {
 		return
 	}
-	var f *os.File
-	if v, ok := inflightFiles.Load(slot); ok {
-		f = v.(*os.File)
+	Beat()
+	var m []byte
+	if v, ok := inflightMaps.Load(slot); ok {
+		m = v.([]byte)
 	} else {
-		var err error
-		f, err = os.OpenFile(filepath.Join(dir, fmt.Sprintf("slot-%d", slot)), os.O_CREATE|os.O_RDWR, 0o644)
+		f, err := os.OpenFile(filepath.Join(dir, fmt.Sprintf("slot-%d", slot)), os.O_CREATE|os.O_RDWR, 0o644)
 		if err != nil {
 			return
 		}
-		inflightFiles.Store(slot, f)
+		defer f.Close()
+		if err := f.Truncate(slotSize); err != nil {
+			return
+		}
+		m, err = syscall.Mmap(int(f.Fd()), 0, slotSize, syscall.PROT_READ|syscall.PROT_WRITE, syscall.MAP_SHARED)
+		if err != nil {
+			return
+		}
+		inflightMaps.Store(slot, m)
 	}
-	b := []byte(scenario + "\n" + strings.Join(path, "\n") + "\n")
-	_ = f.Truncate(0)
-	_, _ = f.WriteAt(b, 0)
+	n := 12
+	put := func(s string) {
+		if n+len(s)+1 <= slotSize {
+			n += copy(m[n:], s)
+			m[n] = '\n'
+			n++
+		}
+	}
+	m[0], m[1], m[2], m[3] = 0, 0, 0, 0
+	binary.LittleEndian.PutUint64(m[4:12], binary.LittleEndian.Uint64(m[4:12])+1)
+	if scenario == "" && len(path) == 0 {
+		return // idle: length stays 0
+	}
+	put(scenario)
+	for _, p := range path {
+		put(p)
+	}
+	l := n - 12
+	m[0], m[1], m[2], m[3] = byte(l), byte(l>>8), byte(l>>16), byte(l>>24)
+}
+
+// InflightIdle marks a worker slot as waiting for work.
+func InflightIdle(slot int) { Inflight(slot, "", nil) }
+
+func readSlot(path string) []byte {
+	b, _ := readSlotSeq(path)
+	return b
+}
+
+func readSlotSeq(path string) ([]byte, uint64) {
+	b, err := os.ReadFile(path)
+	if err != nil || len(b) < 12 {
+		return nil, 0
+	}
+	seq := binary.LittleEndian.Uint64(b[4:12])
+	l := int(b[0]) | int(b[1])<<8 | int(b[2])<<16 | int(b[3])<<24
+	if l <= 0 || 12+l > len(b) {
+		return nil, seq
+	}
+	return b[12 : 12+l], seq
 }
 
 func markFinished() {
